@@ -5,7 +5,9 @@ worktrees (git -C /repo worktree add --detach) and /tmp/seed/<ID>."""
 import glob, json, os, subprocess, sys
 
 tmpl, outdir, suffix = sys.argv[1:4]
-only = sys.argv[4:]
+only = [a for a in sys.argv[4:] if not a.startswith("--")]
+opts = dict(a[2:].split("=", 1) for a in sys.argv[4:] if a.startswith("--"))  # --focus=<json: prop -> text>  --out=<dir made per id, default /tmp/seed>
+focus = json.load(open(opts["focus"])) if "focus" in opts else {}
 os.makedirs(outdir, exist_ok=True)
 props = [json.loads(l) for l in open("/verif/properties.jsonl")]
 for p in props:
@@ -17,12 +19,20 @@ for p in props:
     used = []
     for m in sorted(glob.glob(f"/verif/seeded/{p['id']}-*/meta.json")):
         used.append("  - " + json.load(open(m)).get("summary", "")[:400])
+    if "benign" in tmpl:
+        used = []
+        for m in sorted(glob.glob(f"/verif/benign/{p['id']}-r*/notes.json")):
+            try:
+                used += ["  - " + str(e.get("where", ""))[:120] + " (" + str(e.get("kind", ""))[:60] + ")" for e in json.load(open(m))]
+            except Exception:
+                pass
+        used = used[-40:]
     wt = f"/tmp/wt/{ident}"
     if not os.path.isdir(wt):
         os.makedirs("/tmp/wt", exist_ok=True)
         subprocess.run(["git", "-C", "/repo", "worktree", "add", "--detach", wt, "HEAD"], check=True, capture_output=True)
-    os.makedirs(f"/tmp/seed/{ident}", exist_ok=True)
+    os.makedirs(os.path.join(opts.get("out", "/tmp/seed"), ident), exist_ok=True)
     s = open(tmpl).read().replace("__WT__", wt).replace("__ID__", ident).replace("__PROP__", text) \
-        .replace("__USED__", "\n".join(used) or "  (none)").replace("__FOCUS__", "  (none)")
+        .replace("__USED__", "\n".join(used) or "  (none)").replace("__FOCUS__", focus.get(p["id"], "  (none)"))
     open(os.path.join(outdir, ident + ".txt"), "w").write(s)
     print(ident, len(s))
